@@ -147,4 +147,203 @@ theorem str_addr (l : LenTy) : AddrIndep (strD l) := by
   rw [readU_addr l a a' bs h]
   exact ⟨rfl, rfl⟩
 
+
+/-! ### FlexVec, unsized structs and enums; assembly over `Ty` -/
+theorem checkAlignMin_addr (al mn a a' : Nat) (bs : Bytes) (h : a % al = a' % al) :
+    checkAlignMin al mn ⟨a, bs⟩ = checkAlignMin al mn ⟨a', bs⟩ := by
+  by_cases h0 : a % al = 0
+  · have h0' : a' % al = 0 := by rw [← h]; exact h0
+    simp [checkAlignMin, h0, h0', Slice.len] <;> rfl
+  · have h0' : ¬ a' % al = 0 := by rw [← h]; exact h0
+    simp [checkAlignMin, h0, h0']
+
+theorem flexValidate_addr (d : Dict) (hd : AddrIndep d) (hp : Pow2 d.align) (l : LenTy) (hl : l.Law) (os : Nat) :
+    ∀ (f pos a a' : Nat) (bs : Bytes), a % max l.align d.align = a' % max l.align d.align →
+      flexValidate d l os f pos ⟨a, bs⟩ = flexValidate d l os f pos ⟨a', bs⟩ := by
+  intro f
+  induction f with
+  | zero => intro _ _ _ _ _; rfl
+  | succ f ih =>
+    intro pos a a' bs h
+    have hla : a % l.align = a' % l.align := mod_congr_of_dvd h (Pow2.max_mod_left hl.align_pow2 hp)
+    have hda : a % d.align = a' % d.align := mod_congr_of_dvd h (Pow2.max_mod_right hl.align_pow2 hp)
+    have hck := checkAlignMin_addr l.align l.size a a' bs hla
+    have hread := readU_addr l a a' bs hla
+    have hv : ∀ (k : Nat) (xs : Bytes), d.validate ⟨a + k, xs⟩ = d.validate ⟨a' + k, xs⟩ :=
+      fun k xs => validate_congr hd _ _ _ (mod_congr_add hda k)
+    have hrec : ∀ (p k : Nat) (xs : Bytes), flexValidate d l os f p ⟨a + k, xs⟩ = flexValidate d l os f p ⟨a' + k, xs⟩ :=
+      fun p k xs => ih p _ _ xs (mod_congr_add h k)
+    unfold flexValidate
+    simp only [hck, hread]
+    by_cases h0 : a % max l.align d.align = 0
+    · have h0' : a' % max l.align d.align = 0 := by rw [← h]; exact h0
+      simp only [h0, h0', ne_eq, not_true_eq_false, if_false]
+      cases hc : checkAlignMin l.align l.size ⟨a', bs⟩ with
+      | err e => rfl
+      | fault w => rfl
+      | ok u =>
+        cases hr : l.readU ⟨a', bs⟩ with
+        | err e => rfl
+        | fault w => rfl
+        | ok next =>
+          simp only [Slice.splitAt, Slice.len, Slice.take, Slice.drop]
+          by_cases h1 : os ≤ bs.length <;> by_cases h2 : next ≤ bs.length <;> by_cases h3 : os ≤ (bs.take next).length <;>
+            simp only [h1, h2, h3, if_true, if_false, hv, hrec] <;> rfl
+    · have h0' : ¬ a' % max l.align d.align = 0 := by rw [← h]; exact h0
+      simp only [h0, h0', ne_eq, not_false_eq_true, if_true]
+
+theorem flexSize_addr (d : Dict) (hd : AddrIndep d) (hp : Pow2 d.align) (l : LenTy) (hl : l.Law) (os al : Nat) :
+    ∀ (f pos a a' : Nat) (bs : Bytes), a % max l.align d.align = a' % max l.align d.align →
+      flexSize d l os al f pos ⟨a, bs⟩ = flexSize d l os al f pos ⟨a', bs⟩ := by
+  intro f
+  induction f with
+  | zero => intro _ _ _ _ _; rfl
+  | succ f ih =>
+    intro pos a a' bs h
+    have hla : a % l.align = a' % l.align := mod_congr_of_dvd h (Pow2.max_mod_left hl.align_pow2 hp)
+    have hda : a % d.align = a' % d.align := mod_congr_of_dvd h (Pow2.max_mod_right hl.align_pow2 hp)
+    have hread := readU_addr l a a' bs hla
+    have hs : ∀ (k : Nat) (xs : Bytes), d.size ⟨a + k, xs⟩ = d.size ⟨a' + k, xs⟩ :=
+      fun k xs => (hd _ _ xs (mod_congr_add hda k)).2
+    have hrec : ∀ (p k : Nat) (xs : Bytes), flexSize d l os al f p ⟨a + k, xs⟩ = flexSize d l os al f p ⟨a' + k, xs⟩ :=
+      fun p k xs => ih p _ _ xs (mod_congr_add h k)
+    unfold flexSize
+    simp only [hread, Res.bind_eq]
+    cases hr : l.readU ⟨a', bs⟩ with
+    | err e => rfl
+    | fault w => rfl
+    | ok next =>
+      simp only [Res.bind_ok, Slice.splitAt, Slice.len, Slice.take, Slice.drop]
+      by_cases h1 : os ≤ bs.length <;> by_cases h2 : next ≤ bs.length <;>
+        simp only [h1, h2, if_true, if_false, Res.bind_ok, Res.bind_fault, hs, hrec] <;> rfl
+
+theorem flex_addr (d : Dict) (hd : AddrIndep d) (hp : Pow2 d.align) (l : LenTy) (hl : l.Law) : AddrIndep (flexD d l) := by
+  intro a a' bs h
+  simp only [flexD] at h ⊢
+  simp only [Slice.len, Slice.take]
+  exact ⟨flexValidate_addr d hd hp l hl _ _ 0 a a' _ h, flexSize_addr d hd hp l hl _ _ _ 0 a a' _ h⟩
+
+theorem ustruct_addr (ds : List Dict) (last : Dict) (hl : ∀ d ∈ ds ++ [last], Law d) (hd : ∀ d ∈ ds ++ [last], AddrIndep d) :
+    AddrIndep (ustructD ds last) := by
+  intro a a' bs h
+  simp only [ustructD] at h ⊢
+  simp only [Slice.len, Slice.take, Slice.dropU, Slice.drop]
+  refine ⟨validateAll_addr (alignL (ds ++ [last])) (ds ++ [last]) hd (alignL_mod _ hl) 0 a a' _ h, ?_⟩
+  have hlast := (hd last (by simp))
+  have hm : alignL (ds ++ [last]) % last.align = 0 := alignL_mod _ hl last (by simp)
+  by_cases hc : ceilMul (foldSize ds 0) last.align ≤ (List.take (floorMul (List.length bs) (alignL (ds ++ [last]))) bs).length
+  · simp only [hc, if_true, Res.bind_eq, Res.bind_ok]
+    rw [(hlast _ _ _ (mod_congr_add (mod_congr_of_dvd h hm) _)).2]
+  · simp only [hc, if_false, Res.bind_eq, Res.bind_fault]
+
+theorem foldSizeDyn_addr (M : Nat) :
+    ∀ (ds : List Dict), (∀ d ∈ ds, AddrIndep d) → (∀ d ∈ ds, M % d.align = 0) →
+      ∀ (pos acc a a' : Nat) (bs : Bytes), a % M = a' % M → foldSizeDyn ds pos acc ⟨a, bs⟩ = foldSizeDyn ds pos acc ⟨a', bs⟩ := by
+  intro ds
+  induction ds with
+  | nil => intro _ _ _ _ _ _ _ _; rfl
+  | cons d ds ih =>
+    intro hd hm pos acc a a' bs h
+    cases ds with
+    | nil =>
+      simp only [foldSizeDyn, Res.bind_eq]
+      rw [(hd d (by simp) a a' bs (mod_congr_of_dvd h (hm d (by simp)))).2]
+    | cons d' ds' =>
+      simp only [foldSizeDyn, Slice.splitAt, Slice.len, Slice.take, Slice.drop]
+      by_cases hc : ceilMul (pos + d.ssize) d'.align - pos ≤ bs.length
+      · simp only [hc, if_true]
+        exact ih (fun x hx => hd x (by simp [hx])) (fun x hx => hm x (by simp [hx])) _ _ _ _ _ (mod_congr_add h _)
+      · simp only [hc, if_false]
+
+theorem uenum_addr (tag : LenTy) (ht : tag.Law) (vs : List (List Dict)) (hl : ∀ v ∈ vs, ∀ d ∈ v, Law d)
+    (hd : ∀ v ∈ vs, ∀ d ∈ v, AddrIndep d) : AddrIndep (uenumD tag vs) := by
+  intro a a' bs h
+  simp only [uenumD] at h ⊢
+  have hpll := alignLL_pow2 vs hl
+  have hdata := mod_congr_add (mod_congr_of_dvd h (Pow2.max_mod_right ht.align_pow2 hpll)) (ceilMul tag.size (max tag.align (alignLL vs)))
+  rw [readU_addr tag a a' bs (mod_congr_of_dvd h (Pow2.max_mod_left ht.align_pow2 hpll))]
+  cases hr : tag.readU ⟨a', bs⟩ with
+  | ok t =>
+    simp only [Res.bind_eq, Res.bind_ok, Slice.dropU, Slice.len, Slice.drop, Slice.take]
+    by_cases hdo : ceilMul tag.size (max tag.align (alignLL vs)) ≤ bs.length
+    · simp only [hdo, if_true, Res.bind_ok]
+      by_cases hlt : t < vs.length
+      · have hmem := getD_mem vs t [] hlt
+        simp only [hlt, if_true]
+        rw [validateAll_addr (alignLL vs) (vs.getD t []) (hd _ hmem) (fun d hdm => alignLL_mod vs hl _ hmem d hdm) 0 _ _ _ hdata,
+          foldSizeDyn_addr (alignLL vs) (vs.getD t []) (hd _ hmem) (fun d hdm => alignLL_mod vs hl _ hmem d hdm) 0 0 _ _ _ hdata]
+        exact ⟨rfl, rfl⟩
+      · simp only [hlt, if_false, true_and]
+        -- an out-of-range tag: validation has already failed; `size()` reads the (empty) default variant
+        have hv : vs.getD t [] = [] := by
+          simp only [List.getD, List.getElem?_eq_none (Nat.le_of_not_lt hlt), Option.getD_none]
+        simp only [hv, List.isEmpty_nil, if_true]
+    · simp only [hdo, if_false, Res.bind_fault, and_self]
+  | err e => exact ⟨rfl, rfl⟩
+  | fault f => exact ⟨rfl, rfl⟩
+
+mutual
+/-- **Validation and `size()` do not depend on where the bytes are, only on the address modulo the alignment** — for every
+well-formed type. A message that validates in the sender's buffer validates on the wire and in the receiver's buffer. -/
+theorem Ty.addrIndep : ∀ t : Ty, t.WF → AddrIndep t.dict
+  | .prim s a, _ => prim_addr s a
+  | .bool, _ => bool_addr
+  | .arr t n, h => by
+      simp only [Ty.WF] at h
+      obtain ⟨sz, hsz⟩ : ∃ sz, t.dict.sized = some sz := by
+        have hs := dict_sized_isSome t h.2
+        cases hq : t.dict.sized <;> simp_all
+      have hss : t.dict.ssize = sz := by simp [Dict.ssize, hsz]
+      exact arr_addr t.dict (Ty.addrIndep t h.1) (by rw [hss]; exact (Ty.law t h.1).sized_mod sz hsz) n
+  | .sstruct fs, h => by
+      simp only [Ty.WF] at h
+      exact sstruct_addr (dictL fs) (lawL fs h.1) (addrL fs h.1)
+  | .cenum tag n, _ => cenum_addr tag n
+  | .senum tag vs, h => by
+      simp only [Ty.WF] at h
+      exact senum_addr tag h.1 (dictLL vs) (lawLL vs h.2.1) (addrLL vs h.2.1)
+  | .vec t l, h => by
+      simp only [Ty.WF] at h
+      exact vec_addr t.dict (Ty.addrIndep t h.1) (Ty.law t h.1).align_pow2 l h.2.2
+  | .str l, _ => str_addr l
+  | .flex t l, h => by
+      simp only [Ty.WF] at h
+      exact flex_addr t.dict (Ty.addrIndep t h.1) (Ty.law t h.1).align_pow2 l h.2
+  | .ustruct fs last, h => by
+      simp only [Ty.WF] at h
+      apply ustruct_addr (dictL fs) last.dict
+      · intro d hd
+        rcases List.mem_append.1 hd with hm | hm
+        · exact lawL fs h.1 d hm
+        · simp at hm; subst hm; exact Ty.law last h.2.2.1
+      · intro d hd
+        rcases List.mem_append.1 hd with hm | hm
+        · exact addrL fs h.1 d hm
+        · simp at hm; subst hm; exact Ty.addrIndep last h.2.2.1
+  | .uenum tag vs, h => by
+      simp only [Ty.WF] at h
+      exact uenum_addr tag h.1 (dictLL vs) (lawLL vs h.2.1) (addrLL vs h.2.1)
+theorem addrL : ∀ fs : List Ty, wfL fs → ∀ d ∈ dictL fs, AddrIndep d
+  | [], _ => by intro d hd; simp [dictL] at hd
+  | t :: ts, h => by
+      intro d hd
+      simp only [dictL, List.mem_cons] at hd
+      rcases hd with rfl | hm
+      · exact Ty.addrIndep t h.1
+      · exact addrL ts h.2 d hm
+theorem addrLL : ∀ vs : List (List Ty), wfLL vs → ∀ v ∈ dictLL vs, ∀ d ∈ v, AddrIndep d
+  | [], _ => by intro v hv; simp [dictLL] at hv
+  | v0 :: vs, h => by
+      intro v hv
+      simp only [dictLL, List.mem_cons] at hv
+      rcases hv with rfl | hm
+      · exact addrL v0 h.1
+      · exact addrLL vs h.2 v hm
+end
+
+/-- validity at one aligned address is validity at every aligned address -/
+theorem validate_any_addr (t : Ty) (h : t.WF) (bs : Bytes) (a a' : Nat) (ha : a % t.dict.align = 0) (ha' : a' % t.dict.align = 0) :
+    t.dict.validate ⟨a, bs⟩ = t.dict.validate ⟨a', bs⟩ ∧ t.dict.size ⟨a, bs⟩ = t.dict.size ⟨a', bs⟩ :=
+  ⟨validate_congr (Ty.addrIndep t h) a a' bs (by rw [ha, ha']), ((Ty.addrIndep t h) a a' bs (by rw [ha, ha'])).2⟩
 end FV
+#print axioms FV.Ty.addrIndep
